@@ -57,7 +57,7 @@ def line(req):
         return 'cleanup ' + ' '.join('-' if x is None else str(x) for x in req[1:])
     if op == 'cache':
         _, variant, ops = req
-        return 'cache weakValue ' + (','.join(ops) or '_')
+        return 'cache %s ' % ('noStore' if variant.startswith('pokself') else 'weakValue') + (','.join(ops) or '_')
     if op == 'partialsig':
         _, n, kw, ps = req
         kws = '.'.join('%d=%d' % (core.NAMES.id(k), v) for k, v in kw) or '_'
